@@ -10,6 +10,7 @@ import Model.InquiryEq
 import Model.Serialize
 import Model.Prefilter
 import Model.MongoMig
+import Model.Conc
 /-!
 # `vaktdrv`: one case per line in, one result per line out
 -/
@@ -162,6 +163,24 @@ def runMig (orders : List Nat) : MState → List (Req × Fault) → List String
     ((if x.2 then "R" else "C") ++ " last=" ++ toString x.1.last ++ " schema=" ++
       ",".intercalate ((sortAsc x.1.schema).map toString) ++ " trace=" ++ showT) :: runMig orders x.1 rest
 
+open Vakt.Conc in
+def pActs : Nat → Toks → Option (List (Nat × Act))
+  | 0, [] => some []
+  | 0, _ => none
+  | n + 1, t :: a :: ts => do
+    let tid ← t.toNat?
+    match a with
+    | "acq" => (pActs n ts).map ((tid, Act.acq) :: ·)
+    | "rel" => (pActs n ts).map ((tid, Act.rel) :: ·)
+    | "view" => (pActs n ts).map ((tid, Act.view) :: ·)
+    | "next" => (pActs n ts).map ((tid, Act.next) :: ·)
+    | "has" => (match ts with | u :: ts' => (pActs n ts').map ((tid, Act.has u.toList) :: ·) | [] => none)
+    | "put" => (match ts with | u :: ts' => (pActs n ts').map ((tid, Act.put u.toList) :: ·) | [] => none)
+    | "del" => (match ts with | u :: ts' => (pActs n ts').map ((tid, Act.del u.toList) :: ·) | [] => none)
+    | "get" => (match ts with | u :: ts' => (pActs n ts').map ((tid, Act.get u.toList) :: ·) | [] => none)
+    | _ => none
+  | _, _ => none
+
 def handle (toks : List String) : Option String :=
   match toks with
   | "ECHO" :: "val" :: ts => do let v ← full (pVal ts); pure ("ECHO val " ++ showVal v)
@@ -283,6 +302,13 @@ def handle (toks : List String) : Option String :=
        | .error .irreversible => pure "irreversible"
        | .error .other => pure "other")
     | _ => none
+  | "CONC" :: _nthreads :: n :: ts => do
+    let n ← n.toNat?
+    let acts ← pActs n ts
+    match Vakt.Conc.discipline none acts with
+    | some none => pure "ok"
+    | some (some t) => pure ("ok-lock-left-held-by " ++ toString t)
+    | none => pure "violates-lock-discipline"
   | "POBJ" :: ts => do
     let (ctor, ts) ← pCounted pAssign ts
     let steps ← full (pCounted pAssign ts)
